@@ -161,6 +161,30 @@ pub fn model(spec: &GraphSpec) -> ModelOut {
 // ------------------------------------------------------------------- workload
 
 pub fn gen_graph(rng: &mut SplitMix, thorough: bool) -> GraphSpec {
+    let mut g = gen_graph_inner(rng, thorough);
+    // one graph in 40: a LONG list of externals (63 .. 256 distinct labels, most of
+    // them not attached to any edge; legal input: `externals: Vec<u8>`): 64-bit
+    // masks over the externals, fixed-size external tables
+    if rng.chance(1, 40) {
+        let want = *rng.pick(&[63usize, 64, 65, 100, 128, 200, 256]);
+        let mut have: Vec<u8> = g.externals.clone();
+        have.sort_unstable();
+        have.dedup();
+        let mut all: Vec<u8> = (0..=255u8).filter(|v| !have.contains(v)).collect();
+        // random order
+        for i in (1..all.len()).rev() {
+            let j = rng.below(i as u64 + 1) as usize;
+            all.swap(i, j);
+        }
+        for v in all.into_iter().take(want.saturating_sub(have.len())) {
+            let at = rng.below(g.externals.len() as u64 + 1) as usize;
+            g.externals.insert(at, v);
+        }
+    }
+    g
+}
+
+fn gen_graph_inner(rng: &mut SplitMix, thorough: bool) -> GraphSpec {
     let named = workload::named_graphs();
     if rng.chance(1, 12) {
         // a seed graph, possibly with one weight nudged
